@@ -381,7 +381,7 @@ HEADER = ("from __future__ import annotations\n"
           "import sys\n"
           "from typing import TYPE_CHECKING\n"
           "from typing import Any, Callable, Collection, Final, Generic, Literal, Mapping, Optional, Sequence, TypeVar, Union\n"
-          "from enum import Enum\n")
+          "from enum import Enum, Flag\n")
 
 
 def module_src(m: Module, style: str) -> str:
@@ -1017,6 +1017,21 @@ def gen_package(rng: random.Random, idx: int, *, style="plaintext", nmods=3, ree
                         om.funcs.append(Func(pname, [], ret=Ann("int")))
                     else:
                         om.classes[0].methods.append(Func(pname, [], ret=Ann("int")))
+    # a class that derives from enum.Flag (an enum for mypy, a class for the tool, which tests the direct bases Enum / IntEnum)
+    # and has a method; a plain class named like an enum of another module
+    pub_here = [m for m in mods if m.dotted and not any(seg.startswith("_") for seg in m.dotted.split(".")[1:])]
+    if idx % 3 == 1 and pub_here:
+        k_ = f"{names.num()}{tag}"
+        pub_here[0].classes.append(Cls(f"Perm{k_}", bases=["Flag"], base_refs=[("Flag", "enum", False)],
+                                       attrs=[Attr(f"READ_{k_}", None, "1"), Attr(f"WRITE_{k_}", None, "2")],
+                                       methods=[Func(f"describe_{k_}", [], ret=Ann("str"))]))
+    if idx % 4 == 2:
+        with_enum = [m for m in mods if m.enums]
+        others = [m for m in pub_here if with_enum and m is not with_enum[0] and all(c.name != with_enum[0].enums[0].name for c in m.classes)]
+        if with_enum and others:
+            k_ = f"{names.num()}{tag}"
+            others[0].classes.append(Cls(with_enum[0].enums[0].name, attrs=[Attr(f"level_{k_}", Ann("int"), "1")],
+                                         methods=[Func(f"reach_{k_}", [], ret=Ann("int"))]))
     if result_name_grid:
         # every pattern of named / unnamed entries in the Returns section of functions that return tuples of two and three
         gm = Module(f"{root}/result_names_{names.num()}{tag}.py", f"{root}.result_names_{names.n:03d}{tag}")
